@@ -126,7 +126,10 @@ def cosine(X, Y=None, assume_binary=False):
     """
     X, Y = _check_array_pair(X, Y)
     if not issparse(X):
-        return 1.0 - scipy.spatial.distance.cdist(X, Y, metric="cosine")
+        with np.errstate(divide="ignore", invalid="ignore"):
+            return np.nan_to_num(
+                1.0 - scipy.spatial.distance.cdist(X, Y, metric="cosine")
+            )
     if assume_binary:
         Xbits, Ybits, XYbits = _get_bitcount_arrays(X, Y, return_XYbits=True)
         with np.errstate(divide="ignore"):  # handle 0 in denominator
